@@ -1,7 +1,7 @@
 from xhair.runner import Obl
 
 M = "xhair.obl.c16"
-SEARCHES = ["h/a/x/*/*", "h/a/x/v1/y", "h/a/x/v1/m", "h/a/**", "h/a/x/>/m", "h/*/**/c,m", "h/a/x/v9/m", "h/a/x/*", "h/*", "h/a/x/v1/*?ext=y"]
+SEARCHES = ["h/a/x/*/*", "h/a/x/v1/y", "h/a/x/v1/m", "h/a/**", "h/a/x/>/m", "h/*/**/c,m", "h/a/x/v9/m", "h/a/x/*", "h/*", "h/a/x/v1/*?ext=y", "h/a/x/>/y", "h/a/x,*/v1/m"]
 
 
 def x_obligations(tier):
@@ -14,7 +14,7 @@ def x_obligations(tier):
                 continue
             o.append(Obl(f"C16-get[{s},first=attrs#{a1}/enc#{e1}]", M, "get_vs_find", env={"VF_SI": str(si), "VF_A1": str(a1), "VF_E1": str(e1)}, timeout=T, path_timeout=200, family="C16-get",
                          bound="5 entities (3 with data) in the memfs model; get twice: first call fixed, second call's attribute list (3) and sid_encode (3) chosen by the solver; compared with FindInPaths.find"))
-        if tier == "thorough" or si in (0, 1, 4, 6, 8):
+        if tier == "thorough" or si in (0, 1, 4, 6, 8, 10, 11):
             o.append(Obl(f"C16-all[{s}]", M, "all_vs_find", env={"VF_SI": str(si)}, timeout=T, path_timeout=200, family="C16-all", bound="GetFromAll vs FindInAll, attribute list and encoder chosen by the solver"))
     for si in (0, 2):
         o.append(Obl(f"C16-all[{SEARCHES[si]},after get_next]", M, "all_vs_find", env={"VF_SI": str(si), "VF_PRELUDE": "1", "VF_CACHES": "1"}, timeout=T, path_timeout=200, family="C16-all",
